@@ -246,6 +246,10 @@ AXIS_FAMILIES = {
     # cells of 1-2 units at coordinates around 2e9 (a small block in the far corner of a huge layout): boundaries that a
     # RELATIVE tolerance on coordinates would merge
     'FAR9': (lambda i: F(2000000000) + [F(0), F(1), F(3), F(4)][i], lambda j: F(3000000000) + [F(0), F(2), F(3), F(5)][j]),
+    # 1e7-scale layouts whose rounding errors come from a much larger parent cell than the pieces that are compared: a wide
+    # cell cut off-centre at the boundaries of small neighbours (B7G), and four halvings of a cell with 3-decimal coordinates (B7D)
+    'B7G': (lambda i: [F(0), F(2500007, 10), F(6000001, 10), F(100000001, 10)][i], lambda j: [F(0), F(8000000), F(9000000), F(10000000)][j]),
+    'B7D': (lambda i: [F(10505786164, 1000), F(20960818130, 1000), F(230000005, 10)][i], lambda j: [F(0), F(500000), F(7000003, 10)][j]),
     'SLVX': (lambda i: [F(0), F(1), F(128), F(256)][i], lambda j: [F(0), F(64), F(128), F(192)][j]),
     'SLVY': (lambda i: [F(0), F(64), F(128), F(192)][i], lambda j: [F(0), F(1), F(128), F(256)][j]),
 }
@@ -368,18 +372,18 @@ def shard_plan(tier):
     out = []
     if tier == 'quick':
         plan = [('HALF', 3, 2, 3, True), ('DEC1', 2, 3, 2, False), ('STRX', 3, 2, 2, False), ('STRY', 2, 3, 2, False), ('P300', 3, 2, 2, False), ('B7', 3, 2, 2, False),
-                ('SLVX', 3, 3, 3, False), ('SLVY', 3, 3, 3, False), ('FAR9', 3, 2, 2, False)]
+                ('SLVX', 3, 3, 3, False), ('SLVY', 3, 3, 3, False), ('FAR9', 3, 2, 2, False), ('B7G', 3, 3, 3, False), ('B7D', 2, 2, 2, False)]
     else:
         # depth 2 with all 8 operations on the larger plan; depth 3 (6 operations) on the small plan marked deep=True
         plan = [('HALF', 3, 2, 3, True), ('DEC1', 3, 2, 3, True), ('DEC3', 2, 3, 3, False), ('STRX', 3, 2, 3, False), ('STRY', 2, 3, 3, False),
                 ('P300', 3, 2, 3, False), ('DEC7', 4, 1, 4, False), ('HALF', 2, 2, 2, 'deep'), ('DEC1', 2, 1, 2, 'deep'), ('B7', 3, 2, 3, False),
-                ('SLVX', 3, 3, 3, False), ('SLVY', 3, 3, 3, False), ('FAR9', 3, 2, 3, False), ('FAR9', 2, 3, 3, False)]
+                ('SLVX', 3, 3, 3, False), ('SLVY', 3, 3, 3, False), ('FAR9', 3, 2, 3, False), ('FAR9', 2, 3, 3, False), ('B7G', 3, 3, 3, False), ('B7D', 2, 2, 3, False)]
     for (fam, nx, ny, kmax, rich) in plan:
         n = len(layouts(nx, ny, kmax))
-        step = 4 if not fam.startswith('SLV') else 48
+        step = 4 if not (fam.startswith('SLV') or fam == 'B7G') else 48
         for lo in range(0, n, step):
             out.append(dict(fam=fam, nx=nx, ny=ny, kmax=kmax, rich=(rich is True), deep=(rich == 'deep'), lo=lo, hi=min(n, lo + step),
-                            gridonly=fam.startswith('SLV')))
+                            gridonly=(fam.startswith('SLV') or fam == 'B7G')))
     return out
 
 
